@@ -44,6 +44,30 @@ def IpOK (l : Leaf K) : Prop :=
 def LeafOK (l : Leaf K) : Prop :=
   (l.sig ≠ .ip → OopOK l ∧ l.junk = false) ∧ (l.sig ≠ .oop → IpOK l)
 
+/-- The in-place contract with the aliased case optional: `A` = "the body must also be correct
+when `x is out`". `A := False` is all that C03 asks of a leaf (a leaf may write `out` before
+it has finished reading `x`); `A := True` is `IpOK`, what C10 asks of proximals. -/
+def IpOKg (A : Prop) (l : Leaf K) : Prop :=
+  ∀ (s : St K) (x y : Nat), x < s.next → y < s.next → (A ∨ x ≠ y) →
+    (l.ip x y s).1 ≠ .other ∧ (l.ip x y s).2.mem y = l.phi (s.mem x) ∧
+    (∀ b : Nat, b < s.next → b ≠ y → (l.ip x y s).2.mem b = s.mem b) ∧
+    s.next ≤ (l.ip x y s).2.next
+
+def LeafOKg (A : Prop) (l : Leaf K) : Prop :=
+  (l.sig ≠ .ip → OopOK l ∧ l.junk = false) ∧ (l.sig ≠ .oop → IpOKg A l)
+
+def AllOKg (A : Prop) : Op K → Prop
+  | .leaf l => LeafOKg A l
+  | .sum a b => AllOKg A a ∧ AllOKg A b ∧ a.fn = b.fn
+  | .vecsum a _ => AllOKg A a ∧ a.fn = false
+  | .comp a b => AllOKg A a ∧ AllOKg A b
+  | .pwprod a b => AllOKg A a ∧ AllOKg A b ∧ a.fn = b.fn
+  | .lscal a _ => AllOKg A a
+  | .rscal a _ => AllOKg A a
+  | .lvec a _ => AllOKg A a
+  | .rvec a _ => AllOKg A a
+  | .flvm f _ => AllOKg A f
+
 /-- Well-formed tree: leaves satisfy the contract; the operands of a sum / pointwise product
 have the same range kind (enforced by the constructors of `OperatorSum`,
 `OperatorPointwiseProduct`). -/
@@ -88,12 +112,12 @@ open OdlModel.Prox OdlModel.Call OdlModel.Call.Lemmas OdlModel.C03
 theorem C03.comm_arith_of_comm_ring (K : Type) [CommRing K] : CommArith K :=
   ⟨fun a b => by ring, fun a b => by ring, fun a => by ring⟩
 
-/-- Out-of-place call, for EVERY well-formed expression tree (unbounded depth), every store,
+/-- (General form: leaves need not be alias safe, `A := False`.) Out-of-place call, for EVERY well-formed expression tree (unbounded depth), every store,
 every `x`, every junk in the temporaries: `op(x)` returns an object holding `⟦e⟧(x)` and writes
 to NO existing object (so `x` is bit-for-bit unchanged). Covers `_default_call_out_of_place`
 for in-place-only leaves and the `range.element` wrapping of raw results. -/
-theorem C03.call_out_of_place {K : Type} [Add K] [Mul K] (jk : Nat → Vec K) (e : Op K)
-    (h : AllOK e) :
+theorem C03.call_out_of_place_gen {K : Type} [Add K] [Mul K] (A : Prop) (jk : Nat → Vec K)
+    (e : Op K) (h : AllOKg A e) :
     ∀ (s : St K) (x : Nat), x < s.next → OOPSpec e x s (callO jk e x s) := by
   induction e with
   | leaf l =>
@@ -114,6 +138,7 @@ theorem C03.call_out_of_place {K : Type} [Add K] [Mul K] (jk : Nat → Vec K) (e
       obtain ⟨s0, ea, hn0, hv0, hf0⟩ := alloc_spec s (jk s.next)
       have hxs : x ≠ s.next := by omega
       obtain ⟨h1, h2, h3, h4⟩ := hi (by simp [hsig]) s0 x s.next (by omega) (by omega)
+        (Or.inr (by omega))
       simp only [ea]
       cases hret : (l.ip x s.next s0).1
       · refine ⟨_, _, rfl, by change s.next < (l.ip x s.next s0).2.next; omega,
@@ -220,17 +245,23 @@ theorem C03.call_out_of_place {K : Type} [Add K] [Mul K] (jk : Nat → Vec K) (e
     refine ⟨_, _, rfl, by omega, by omega, by rw [hv2, v1]; rfl, ?_⟩
     intro b hb'; rw [hf2 b (by omega), f1 b hb']
 
-/-- In-place call, for EVERY well-formed expression tree (unbounded depth) that is not a
+/-- (General form.) With `A := False` the leaves only have to be correct for `x` and `out`
+DISTINCT: the theorem then holds because every expression class hands a FRESH temporary — never
+`out`, never `x` — to its operand wherever the code does (`OperatorSum`, `OperatorComp`,
+`OperatorPointwiseProduct`, `OperatorRightScalarMult`, `OperatorRightVectorMult`); a wrapper
+that reused `out` as its temporary would need `A := True`.
+In-place call, for EVERY well-formed expression tree (unbounded depth) that is not a
 functional, every store, every `x` and `y` (`y` may hold arbitrary junk — NaN/inf included —
 and may even BE `x`), every junk in the temporaries: the call returns the very object `y`; `y`
 then holds `⟦e⟧(x)` (of the pre-state `x`); no other existing object — in particular `x` when
 `x ≠ y` — is written. -/
-theorem C03.call_in_place {K : Type} [Add K] [Mul K] [OfNat K 0] (hK : CommArith K)
-    (jk : Nat → Vec K) (e : Op K) (h : AllOK e) (hfn : e.fn = false) :
-    ∀ (s : St K) (x y : Nat), x < s.next → y < s.next → IPSpec e x y s (callI jk e x y s) := by
+theorem C03.call_in_place_gen {K : Type} [Add K] [Mul K] [OfNat K 0] (hK : CommArith K)
+    (A : Prop) (jk : Nat → Vec K) (e : Op K) (h : AllOKg A e) (hfn : e.fn = false) :
+    ∀ (s : St K) (x y : Nat), x < s.next → y < s.next → (A ∨ x ≠ y) →
+      IPSpec e x y s (callI jk e x y s) := by
   induction e with
   | leaf l =>
-    intro s x y hx hy
+    intro s x y hx hy hA
     obtain ⟨ho, hi⟩ := h
     have hl : l.fn = false := hfn
     unfold callI
@@ -244,21 +275,21 @@ theorem C03.call_in_place {K : Type} [Add K] [Mul K] [OfNat K 0] (hK : CommArith
       · simp [h3, den]
       · intro b hb hne; rw [write_mem_other _ _ _ _ hne, h4 b hb]
       · change s.next ≤ (l.oop x s).2.next; omega
-    · obtain ⟨h1, h2, h3, h4⟩ := hi (by simp [hsig]) s x y hx hy
+    · obtain ⟨h1, h2, h3, h4⟩ := hi (by simp [hsig]) s x y hx hy hA
       simp only
       cases hret : (l.ip x y s).1 <;> simp_all [IPSpec, den]
-    · obtain ⟨h1, h2, h3, h4⟩ := hi (by simp [hsig]) s x y hx hy
+    · obtain ⟨h1, h2, h3, h4⟩ := hi (by simp [hsig]) s x y hx hy hA
       simp only
       cases hret : (l.ip x y s).1 <;> simp_all [IPSpec, den]
   | sum a b iha ihb =>
-    intro s x y hx hy
+    intro s x y hx hy hA
     obtain ⟨ha, hb, hab⟩ := h
     have hfa : a.fn = false := hfn
     obtain ⟨s0, ea, hn0, hv0, hf0⟩ := alloc_spec s (jk s.next)
     simp only [callI, ea]
-    obtain ⟨s1, e1, v1, f1, n1⟩ := iha ha hfa s0 x s.next (by omega) (by omega)
+    obtain ⟨s1, e1, v1, f1, n1⟩ := iha ha hfa s0 x s.next (by omega) (by omega) (Or.inr (by omega))
     rw [e1, bind_ok]
-    obtain ⟨s2, e2, v2, f2, n2⟩ := ihb hb (by rw [← hab]; exact hfa) s1 x y (by omega) (by omega)
+    obtain ⟨s2, e2, v2, f2, n2⟩ := ihb hb (by rw [← hab]; exact hfa) s1 x y (by omega) (by omega) hA
     rw [e2, bind_ok]
     have hxs : x ≠ s.next := by omega
     have hys : y ≠ s.next := by omega
@@ -273,16 +304,16 @@ theorem C03.call_in_place {K : Type} [Add K] [Mul K] [OfNat K 0] (hK : CommArith
       rw [write_mem_other _ _ _ _ hne, f2 b (by omega) hne, f1 b (by omega) hbs, hf0 b hbs]
     · simp only [write_next]; omega
   | vecsum a v iha =>
-    intro s x y hx hy
+    intro s x y hx hy hA
     simp only [callI]
-    obtain ⟨s1, e1, v1, f1, n1⟩ := iha h.1 h.2 s x y hx hy
+    obtain ⟨s1, e1, v1, f1, n1⟩ := iha h.1 h.2 s x y hx hy hA
     rw [e1, bind_ok]
     refine ⟨_, rfl, ?_, ?_, ?_⟩
     · simp [v1, den]
     · intro b hb hne; rw [write_mem_other _ _ _ _ hne, f1 b hb hne]
     · simp only [write_next]; omega
   | comp a b iha ihb =>
-    intro s x y hx hy
+    intro s x y hx hy hA
     obtain ⟨ha, hb⟩ := h
     have hfa : a.fn = false := hfn
     simp only [callI]
@@ -292,9 +323,9 @@ theorem C03.call_in_place {K : Type} [Add K] [Mul K] [OfNat K 0] (hK : CommArith
       simp only [ea, Bool.false_eq_true, if_false]
       have hxs : x ≠ s.next := by omega
       have hys : y ≠ s.next := by omega
-      obtain ⟨s1, e1, v1, f1, n1⟩ := ihb hb hbf s0 x s.next (by omega) (by omega)
+      obtain ⟨s1, e1, v1, f1, n1⟩ := ihb hb hbf s0 x s.next (by omega) (by omega) (Or.inr (by omega))
       rw [e1, bind_ok]
-      obtain ⟨s2, e2, v2, f2, n2⟩ := iha ha hfa s1 s.next y (by omega) (by omega)
+      obtain ⟨s2, e2, v2, f2, n2⟩ := iha ha hfa s1 s.next y (by omega) (by omega) (Or.inr (by omega))
       refine ⟨s2, e2, ?_, ?_, ?_⟩
       · rw [v2, v1, hf0 x hxs]; rfl
       · intro b hb hne
@@ -303,20 +334,23 @@ theorem C03.call_in_place {K : Type} [Add K] [Mul K] [OfNat K 0] (hK : CommArith
       · omega
     · -- the right factor is a functional: its scalar is computed out-of-place
       simp only [if_true]
-      obtain ⟨rb, s1, e1, u1, n1, v1, f1⟩ := C03.call_out_of_place jk b hb s x hx
+      obtain ⟨rb, s1, e1, u1, n1, v1, f1⟩ := C03.call_out_of_place_gen A jk b hb s x hx
       rw [e1, bind_ok]
-      obtain ⟨s2, e2, v2, f2, n2⟩ := iha ha hfa s1 rb y u1 (by omega)
-      refine ⟨s2, e2, by rw [v2, v1]; rfl, ?_, by omega⟩
-      intro b' hb' hne; rw [f2 b' (by omega) hne, f1 b' hb']
+      obtain ⟨s1', ea, hn1, hv1, hf1⟩ := alloc_spec s1 (s1.mem rb)
+      simp only [ea]
+      obtain ⟨s2, e2, v2, f2, n2⟩ := iha ha hfa s1' s1.next y (by omega) (by omega)
+        (Or.inr (by omega))
+      refine ⟨s2, e2, by rw [v2, hv1, v1]; rfl, ?_, by omega⟩
+      intro b' hb' hne; rw [f2 b' (by omega) hne, hf1 b' (by omega), f1 b' hb']
   | pwprod a b iha ihb =>
-    intro s x y hx hy
+    intro s x y hx hy hA
     obtain ⟨ha, hb, hab⟩ := h
     have hfa : a.fn = false := hfn
     obtain ⟨s0, ea, hn0, hv0, hf0⟩ := alloc_spec s (jk s.next)
     simp only [callI, ea]
-    obtain ⟨s1, e1, v1, f1, n1⟩ := iha ha hfa s0 x s.next (by omega) (by omega)
+    obtain ⟨s1, e1, v1, f1, n1⟩ := iha ha hfa s0 x s.next (by omega) (by omega) (Or.inr (by omega))
     rw [e1, bind_ok]
-    obtain ⟨s2, e2, v2, f2, n2⟩ := ihb hb (by rw [← hab]; exact hfa) s1 x y (by omega) (by omega)
+    obtain ⟨s2, e2, v2, f2, n2⟩ := ihb hb (by rw [← hab]; exact hfa) s1 x y (by omega) (by omega) hA
     rw [e2, bind_ok]
     have hxs : x ≠ s.next := by omega
     have hys : y ≠ s.next := by omega
@@ -331,22 +365,22 @@ theorem C03.call_in_place {K : Type} [Add K] [Mul K] [OfNat K 0] (hK : CommArith
       rw [write_mem_other _ _ _ _ hne, f2 b (by omega) hne, f1 b (by omega) hbs, hf0 b hbs]
     · simp only [write_next]; omega
   | lscal a c iha =>
-    intro s x y hx hy
+    intro s x y hx hy hA
     simp only [callI]
-    obtain ⟨s1, e1, v1, f1, n1⟩ := iha h hfn s x y hx hy
+    obtain ⟨s1, e1, v1, f1, n1⟩ := iha h hfn s x y hx hy hA
     rw [e1, bind_ok]
     refine ⟨_, rfl, ?_, ?_, ?_⟩
     · funext i; simp only [write_mem_same, v1, den]; exact hK.mul_comm _ _
     · intro b hb hne; rw [write_mem_other _ _ _ _ hne, f1 b hb hne]
     · simp only [write_next]; omega
   | rscal a c iha =>
-    intro s x y hx hy
+    intro s x y hx hy hA
     obtain ⟨s0, ea, hn0, hv0, hf0⟩ := alloc_spec s (jk s.next)
     simp only [callI, ea]
     have hxs : x ≠ s.next := by omega
     have hys : y ≠ s.next := by omega
     obtain ⟨s2, e2, v2, f2, n2⟩ := iha h hfn (s0.write s.next (fun i => c * s0.mem x i)) s.next y
-      (by simp only [write_next]; omega) (by simp only [write_next]; omega)
+      (by simp only [write_next]; omega) (by simp only [write_next]; omega) (Or.inr (by omega))
     refine ⟨s2, e2, ?_, ?_, ?_⟩
     · rw [v2, write_mem_same, hf0 x hxs]; rfl
     · intro b hb hne
@@ -354,22 +388,22 @@ theorem C03.call_in_place {K : Type} [Add K] [Mul K] [OfNat K 0] (hK : CommArith
       rw [f2 b (by simp only [write_next]; omega) hne, write_mem_other _ _ _ _ hbs, hf0 b hbs]
     · simp only [write_next] at n2; omega
   | lvec a v iha =>
-    intro s x y hx hy
+    intro s x y hx hy hA
     simp only [callI]
-    obtain ⟨s1, e1, v1, f1, n1⟩ := iha h hfn s x y hx hy
+    obtain ⟨s1, e1, v1, f1, n1⟩ := iha h hfn s x y hx hy hA
     rw [e1, bind_ok]
     refine ⟨_, rfl, ?_, ?_, ?_⟩
     · simp [v1, den]
     · intro b hb hne; rw [write_mem_other _ _ _ _ hne, f1 b hb hne]
     · simp only [write_next]; omega
   | rvec a v iha =>
-    intro s x y hx hy
+    intro s x y hx hy hA
     obtain ⟨s0, ea, hn0, hv0, hf0⟩ := alloc_spec s (jk s.next)
     simp only [callI, ea]
     have hxs : x ≠ s.next := by omega
     have hys : y ≠ s.next := by omega
     obtain ⟨s2, e2, v2, f2, n2⟩ := iha h hfn (s0.write s.next (fun i => s0.mem x i * v i)) s.next y
-      (by simp only [write_next]; omega) (by simp only [write_next]; omega)
+      (by simp only [write_next]; omega) (by simp only [write_next]; omega) (Or.inr (by omega))
     refine ⟨s2, e2, ?_, ?_, ?_⟩
     · rw [v2, write_mem_same, hf0 x hxs]; rfl
     · intro b hb hne
@@ -377,14 +411,70 @@ theorem C03.call_in_place {K : Type} [Add K] [Mul K] [OfNat K 0] (hK : CommArith
       rw [f2 b (by simp only [write_next]; omega) hne, write_mem_other _ _ _ _ hbs, hf0 b hbs]
     · simp only [write_next] at n2; omega
   | flvm f v _ =>
-    intro s x y hx hy
+    intro s x y hx hy hA
     simp only [callI]
-    obtain ⟨r, s1, e1, u1, n1, v1, f1⟩ := C03.call_out_of_place jk f h s x hx
+    obtain ⟨r, s1, e1, u1, n1, v1, f1⟩ := C03.call_out_of_place_gen A jk f h s x hx
     rw [e1, bind_ok]
     refine ⟨_, rfl, ?_, ?_, ?_⟩
     · funext i; simp only [write_mem_same, v1, den]; exact hK.mul_comm _ _
     · intro b hb hne; rw [write_mem_other _ _ _ _ hne, f1 b hb]
     · simp only [write_next]; omega
+
+/-- The alias-tolerant contract implies the general one for every `A`. -/
+theorem C03.allOK_weaken {K : Type} (A : Prop) (e : Op K) (h : AllOK e) : AllOKg A e := by
+  induction e with
+  | leaf l => exact ⟨h.1, fun hs s x y hx hy _ => h.2 hs s x y hx hy⟩
+  | sum a b iha ihb => exact ⟨iha h.1, ihb h.2.1, h.2.2⟩
+  | vecsum a v iha => exact ⟨iha h.1, h.2⟩
+  | comp a b iha ihb => exact ⟨iha h.1, ihb h.2⟩
+  | pwprod a b iha ihb => exact ⟨iha h.1, ihb h.2.1, h.2.2⟩
+  | lscal a c iha => exact iha h
+  | rscal a c iha => exact iha h
+  | lvec a v iha => exact iha h
+  | rvec a v iha => exact iha h
+  | flvm f v ihf => exact ihf h
+
+/-- Out-of-place call, for EVERY well-formed expression tree (unbounded depth), every store,
+every `x`, every junk in the temporaries: `op(x)` returns an object holding `⟦e⟧(x)` and writes
+to NO existing object (so `x` is bit-for-bit unchanged). -/
+theorem C03.call_out_of_place {K : Type} [Add K] [Mul K] (jk : Nat → Vec K) (e : Op K)
+    (h : AllOK e) :
+    ∀ (s : St K) (x : Nat), x < s.next → OOPSpec e x s (callO jk e x s) :=
+  C03.call_out_of_place_gen True jk e (C03.allOK_weaken True e h)
+
+/-- In-place call over alias-safe leaves (`x` may be `out`): the form used by C10. -/
+theorem C03.call_in_place {K : Type} [Add K] [Mul K] [OfNat K 0] (hK : CommArith K)
+    (jk : Nat → Vec K) (e : Op K) (h : AllOK e) (hfn : e.fn = false) :
+    ∀ (s : St K) (x y : Nat), x < s.next → y < s.next → IPSpec e x y s (callI jk e x y s) :=
+  fun s x y hx hy =>
+    C03.call_in_place_gen hK True jk e (C03.allOK_weaken True e h) hfn s x y hx hy (Or.inl trivial)
+
+/-- C03 proper: leaves that obey the call protocol only for DISTINCT `x` and `out` (they may
+write `out` before they have finished reading `x`) — in-place equals out-of-place for every
+tree, `x ≠ y`. -/
+theorem C03.call_in_place_distinct {K : Type} [Add K] [Mul K] [OfNat K 0] (hK : CommArith K)
+    (jk : Nat → Vec K) (e : Op K) (h : AllOKg False e) (hfn : e.fn = false)
+    (s : St K) (x y : Nat) (hx : x < s.next) (hy : y < s.next) (hxy : x ≠ y) :
+    IPSpec e x y s (callI jk e x y s) :=
+  C03.call_in_place_gen hK False jk e h hfn s x y hx hy (Or.inr hxy)
+
+/-- The deliberately non-alias-safe leaf `accumLeaf` (`out[:] = 0; out += c*x`) satisfies the
+protocol for distinct `x`, `out` — and NOT for `x is out` (witness over ℤ: c = 2, x = 5 gives 0
+instead of 10). A wrapper calling it with its own `out` as input would therefore be wrong. -/
+theorem C03.accum_leaf_ok {K : Type} [Add K] [Mul K] [OfNat K 0] (c : K) :
+    LeafOKg False (accumLeaf c) := by
+  refine ⟨fun h => absurd rfl h, fun _ s x y hx hy hA => ?_⟩
+  have hxy : x ≠ y := hA.resolve_left id
+  simp only [accumLeaf]
+  refine ⟨by simp, ?_, ?_, by simp⟩
+  · funext i
+    simp only [write_mem_same, write_mem_other _ _ _ _ hxy]
+  · intro b _ hne; rw [write_mem_other _ _ _ _ hne, write_mem_other _ _ _ _ hne]
+
+theorem C03.accum_leaf_not_alias_safe : ¬ IpOK (accumLeaf (2 : Int)) := by
+  intro h
+  have := congrFun (h ⟨fun _ _ => 5, 1⟩ 0 0 (by simp) (by simp)).2.1 0
+  simp [accumLeaf, St.write] at this
 
 /-- The public call `Operator.__call__` on well-formed arguments — the property itself.
 For every well-formed expression tree that is not a functional, every store `s`, every domain
@@ -599,7 +689,7 @@ open OdlModel.Prox OdlModel.Call
 
 /-- Hypotheses on the blocks of a `ProductSpaceOperator` with `m` rows and `n` columns. -/
 def EntriesOK {K : Type} (m n : Nat) (inPlace : Bool) (entries : List (Entry K)) : Prop :=
-  ∀ e ∈ entries, AllOK e.op ∧ (inPlace = true → e.op.fn = false) ∧ e.row < m ∧ e.col < n
+  ∀ e ∈ entries, AllOKg False e.op ∧ (inPlace = true → e.op.fn = false) ∧ e.row < m ∧ e.col < n
 
 /-- Option-valued accumulator of the in-place loop: `none` = row not yet evaluated. -/
 def stepAcc {K : Type} [Add K] [Mul K] (xv : Nat → Vec K) (e : Entry K)
@@ -639,7 +729,8 @@ theorem C03.pso_loop_out_of_place {K : Type} [Add K] [Mul K] [OfNat K 0] (jk : N
   | cons e rest ih =>
     intro s acc hx ho hxv hinv
     obtain ⟨hop, _, hr, hc⟩ := hent e (by simp)
-    obtain ⟨rb, s1, e1, u1, n1, v1, f1⟩ := C03.call_out_of_place jk e.op hop s (x e.col) (hx _ hc)
+    obtain ⟨rb, s1, e1, u1, n1, v1, f1⟩ :=
+      C03.call_out_of_place_gen False jk e.op hop s (x e.col) (hx _ hc)
     simp only [psoLoopO, e1]
     have hent' : EntriesOK m n false rest := fun e' he' => hent e' (by simp [he'])
     obtain ⟨s', es, vs, fs, ns⟩ := ih hent'
@@ -728,7 +819,7 @@ theorem C03.pso_loop_in_place {K : Type} [Add K] [Mul K] [OfNat K 0] (hK : CommA
     by_cases hd : e.row ∈ done
     · -- row already evaluated: out[i] += op(x[j])
       obtain ⟨rb, s1, e1, u1, n1, v1, f1⟩ :=
-        C03.call_out_of_place jk e.op hop s (x e.col) (hx _ hc)
+        C03.call_out_of_place_gen False jk e.op hop s (x e.col) (hx _ hc)
       simp only [hd, if_true, e1]
       obtain ⟨v0, hv0⟩ : ∃ v0, acc e.row = some v0 :=
         Option.isSome_iff_exists.mp ((hinv _ hr).1.mp hd)
@@ -759,8 +850,8 @@ theorem C03.pso_loop_in_place {K : Type} [Add K] [Mul K] [OfNat K 0] (hK : CommA
           write_mem_other _ _ _ _ (hnb _ hr), f1 b hb]
       · simp only [write_next] at ns; omega
     · -- first block of this row: op(x[j], out=out[i])
-      obtain ⟨s1, e1, v1, f1, n1⟩ := C03.call_in_place hK jk e.op hop (hfn rfl) s (x e.col)
-        (y e.row) (hx _ hc) (hy _ hr)
+      obtain ⟨s1, e1, v1, f1, n1⟩ := C03.call_in_place_gen hK False jk e.op hop (hfn rfl) s
+        (x e.col) (y e.row) (hx _ hc) (hy _ hr) (Or.inr (Ne.symm (hdis _ _ hr hc)))
       simp only [hd, if_false, e1]
       have hnone : acc e.row = none := by
         have := (hinv _ hr).1
@@ -935,8 +1026,8 @@ example : EntriesOK (K := Int) 2 1 true (broadcastEntries [.leaf (scalingLeaf 2)
         (fun j => j) (fun _ => 2)
         (⟨fun b _ => if b = 0 then 5 else if b = 1 then 7 else 1000, 3⟩ : St Int)
         = .ok done s' ∧ s'.mem 2 0 = 31 := by
-  have h2 := C03.scale_leaf_ok (2 : Int)
-  have h3 := C03.scale_leaf_ok (3 : Int)
+  have h2 := C03.allOK_weaken False (.leaf (scalingLeaf (2 : Int))) (C03.scale_leaf_ok 2)
+  have h3 := C03.allOK_weaken False (.leaf (scalingLeaf (3 : Int))) (C03.scale_leaf_ok 3)
   have hb : EntriesOK (K := Int) 2 1 true
       (broadcastEntries [.leaf (scalingLeaf 2), .leaf (scalingLeaf 3)]) := by
     intro e he
@@ -978,3 +1069,21 @@ theorem C03.scalar_mult_leaf_ok {K : Type} [Add K] [Mul K] [OfNat K 0] (v : Vec 
     exact ⟨by omega, by omega, hv0, fun b hb => hf0 b (by omega)⟩
   · simp only [scalarMultLeaf]
     exact ⟨by simp, by simp, fun b _ hne => write_mem_other _ _ _ _ hne, by simp⟩
+
+/-- Sensitivity (seeded bug C04-13): `OperatorRightScalarMult._call` must scale `x` into a FRESH
+temporary. If it reused `out` (`tmp = out; tmp.lincomb(s, x); operator(tmp, out=out)`), the
+operand would be called aliased; over the protocol-abiding but non-alias-safe `accumLeaf` the
+result is 0 instead of `2·(3·5) = 30`, while the model of the code as it is gives 30. -/
+theorem C03.reusing_out_as_temporary_is_wrong :
+    let s : St Int := ⟨fun b _ => if b = 0 then 5 else 77, 2⟩
+    let e : Op Int := .rscal (.leaf (accumLeaf 2)) 3
+    (∃ s', callI (fun _ _ => 99) e 0 1 s = .ok 1 s' ∧ s'.mem 1 0 = 30) ∧
+    (∃ s', callI (fun _ _ => 99) (.leaf (accumLeaf 2)) 1 1
+        (s.write 1 (fun i => 3 * s.mem 0 i)) = .ok 1 s' ∧ s'.mem 1 0 = 0) := by
+  intro s e
+  constructor
+  · have hok : AllOKg False e := C03.accum_leaf_ok 2
+    obtain ⟨s', e1, v1, _, _⟩ := C03.call_in_place_distinct (C03.comm_arith_of_comm_ring Int)
+      (fun _ _ => 99) e hok rfl s 0 1 (by simp [s]) (by simp [s]) (by omega)
+    exact ⟨s', e1, by rw [v1]; simp [e, s, den, accumLeaf]⟩
+  · exact ⟨_, by simp only [callI, accumLeaf]; rfl, by simp [St.write]⟩
